@@ -334,3 +334,162 @@ Proof.
   apply (evolve_split St grid [] (step_plain2d rule store r ty)).
   intros x c t t'. now apply step_plain2d_t_indep.
 Qed.
+
+(* ------------------------------------------------------------------ block engines keep the cell shape
+   (no hypothesis on the block rule: a step starts from zeros of the input's shape and only updates cells) *)
+Lemma upd_length {A} (l : list A) i v : length (upd l i v) = length l.
+Proof. revert i. induction l as [|x l IH]; intros [|i]; cbn [upd length]; try reflexivity. now rewrite IH. Qed.
+
+Lemma upd_Forall {A} (Q : A -> Prop) (l : list A) i v :
+  Forall Q l -> (i < length l -> Q v) -> Forall Q (upd l i v).
+Proof.
+  revert i. induction l as [|x l IH]; intros [|i] HF Hv; cbn [upd]; try exact HF.
+  - inversion HF; subst. constructor; [apply Hv; cbn [length]; lia|assumption].
+  - inversion HF; subst. constructor; [assumption|]. apply IH; [assumption|]. intros Hi. apply Hv. cbn [length]. lia.
+Qed.
+
+Section BlockShape1D.
+  Variable St : Type.
+  Variable rule : block_rule St.
+  Variable store : Z -> Z.
+
+  Lemma scatter_length : forall stride res arr, length (scatter store arr stride res) = length arr.
+  Proof.
+    intros stride res arr. unfold scatter. generalize (combine stride res) as l. intros l. revert arr.
+    induction l as [|ir l IH]; intros arr; [reflexivity|]. cbn [fold_left]. now rewrite IH, upd_length.
+  Qed.
+
+  Lemma apply_blocks_length : forall strides s cells arr t,
+    length (snd (apply_blocks rule store s cells arr strides t)) = length arr.
+  Proof.
+    induction strides as [|st strides IH]; intros s cells arr t; [reflexivity|].
+    cbn [apply_blocks]. destruct (rule s (gather cells st) t) as [s1 res]. now rewrite IH, scatter_length.
+  Qed.
+
+  Lemma step_block_length : forall b s cells t, length (snd (step_block rule store b s cells t)) = length cells.
+  Proof. intros b s cells t. unfold step_block. now rewrite apply_blocks_length, repeat_length. Qed.
+
+  Lemma evolve_block_shape : forall b s0 (hist : list (list Z)) T s' out,
+    evolve_block rule store b s0 hist T = Ok (s', out) ->
+    exists rows, out = hist ++ rows /\ length rows = T - 1 /\
+      Forall (fun row => length row = length (last hist [])) rows.
+  Proof.
+    intros b s0 hist T s' out H. apply evolve_block_ok_inv in H. destruct H as [_ Hf].
+    destruct (evolve_extends _ _ _ _ _ _ _ _ _ Hf) as [rows [E L]]. exists rows. split; [exact E|]. split; [exact L|].
+    pose proof (evolve_rows_invariant _ _ [] (step_block rule store b) (fun row => length row = length (last hist []))
+                  (fun x c t Hc => eq_trans (step_block_length b x c t) Hc) s0 hist T s' out eq_refl Hf) as I.
+    subst out. rewrite skipn_app, skipn_all, Nat.sub_diag in I. exact I.
+  Qed.
+End BlockShape1D.
+
+Section BlockShape2D.
+  Variable St : Type.
+  Variable rule : block_rule2 St.
+  Variable store : Z -> Z.
+
+  Lemma upd2_shape : forall R C g ij v, grid_shape R C g -> grid_shape R C (upd2 g ij v).
+  Proof.
+    intros R C g [i j] v [HR HC]. unfold upd2. cbn [fst snd]. split; [now rewrite upd_length|].
+    apply upd_Forall; [exact HC|]. intros Hi. rewrite upd_length.
+    rewrite Forall_forall in HC. apply HC. now apply nth_In.
+  Qed.
+
+  Lemma scatter2_shape : forall R C rc v arr, grid_shape R C arr -> grid_shape R C (scatter2 store arr rc v).
+  Proof.
+    intros R C rc v arr. unfold scatter2. generalize (combine (block_cells rc) (concat v)) as l. intros l. revert arr.
+    induction l as [|kv l IH]; intros arr H; [exact H|]. cbn [fold_left]. apply IH. now apply upd2_shape.
+  Qed.
+
+  Lemma apply_blocks2_shape : forall R C blocks s g arr t, grid_shape R C arr ->
+    grid_shape R C (snd (apply_blocks2 rule store s g arr blocks t)).
+  Proof.
+    intros R C. induction blocks as [|rc blocks IH]; intros s g arr t H; [exact H|].
+    cbn [apply_blocks2]. destruct (rule s (gather2 g rc) t) as [s1 v].
+    destruct (bcast (length (fst rc)) (length (snd rc)) v); [apply IH; now apply scatter2_shape|exact H].
+  Qed.
+
+  Lemma repeat_shape : forall R C, grid_shape R C (repeat (repeat 0%Z C) R).
+  Proof.
+    intros R C. split; [apply repeat_length|]. apply Forall_forall. intros row Hin.
+    apply repeat_spec in Hin. subst row. apply repeat_length.
+  Qed.
+
+  Lemma step_block2d_shape : forall R C b1 b2 sb g t, grid_shape R C g ->
+    grid_shape R C (snd (step_block2d rule store b1 b2 sb g t)).
+  Proof.
+    intros R C b1 b2 sb g t Hg. unfold step_block2d. destruct (snd sb); [exact Hg|].
+    pose proof (apply_blocks2_shape (rows_of g) (cols_of g) (blocks2_at (rows_of g) (cols_of g) b1 b2 t) (fst sb) g
+                  (repeat (repeat 0%Z (cols_of g)) (rows_of g)) t (repeat_shape _ _)) as S.
+    destruct (apply_blocks2 rule store (fst sb) g (repeat (repeat 0%Z (cols_of g)) (rows_of g))
+                (blocks2_at (rows_of g) (cols_of g) b1 b2 t) t) as [[s' bad] arr]. cbn [snd] in *.
+    destruct Hg as [HR HC]. destruct S as [SR SC]. unfold rows_of, cols_of in *. split; [congruence|].
+    destruct g as [|row g].
+    - cbn [length] in *. destruct arr; [constructor|cbn [length] in SR; discriminate].
+    - cbn [hd] in SC. inversion HC; subst. congruence.
+  Qed.
+
+  Lemma evolve2d_block_shape : forall b1 b2 s0 (hist : list grid2) T s' out R C,
+    evolve2d_block rule store b1 b2 s0 hist T = Ok (s', out) ->
+    length (last hist []) = R /\ Forall (fun row => length row = C) (last hist []) ->
+    exists rows, out = hist ++ rows /\ length rows = T - 1 /\
+      Forall (fun g => length g = R /\ Forall (fun row => length row = C) g) rows /\
+      (forall hist' : list grid2, hist' <> [] -> @last grid2 hist' [] = last hist [] ->
+         evolve2d_block rule store b1 b2 s0 hist' T = Ok (s', hist' ++ rows)).
+  Proof.
+    intros b1 b2 s0 hist T s' out R C H Hs. pose proof H as H'. apply evolve2d_block_ok_inv in H'. destruct H' as [Hne Hf].
+    destruct (evolve_extends _ _ _ _ _ _ _ _ _ Hf) as [rows [E L]]. exists rows. split; [exact E|]. split; [exact L|]. split.
+    - pose proof (evolve_rows_invariant _ _ [] (step_block2d rule store b1 b2) (grid_shape R C)
+                    (fun x c t Hc => step_block2d_shape R C b1 b2 x c t Hc) (s0, false) hist T (s', false) out Hs Hf) as I.
+      subst out. rewrite skipn_app, skipn_all, Nat.sub_diag in I. exact I.
+    - intros hist' Hne' HL.
+      assert (F' : evolve_fixed [] (step_block2d rule store b1 b2) (s0, false) hist' T = Ok ((s', false), hist' ++ rows)).
+      { subst out. destruct T as [|k]; [discriminate Hf|].
+        destruct (evolve_fixed_ok _ _ [] (step_block2d rule store b1 b2) (s0, false) hist' (S k) ltac:(lia)) as [x2 [rows2 [F2 _]]].
+        destruct (evolve_rows_depend_on_last _ _ [] (step_block2d rule store b1 b2) (s0, false) hist hist' (S k)
+                    _ _ _ _ (eq_sym HL) Hf F2) as [Ex [rows0 [E1 [E2 _]]]].
+        apply app_inv_head in E1. apply app_inv_head in E2. subst rows0 rows2. rewrite F2, <- Ex. reflexivity. }
+      unfold evolve2d_block in H |- *.
+      destruct hist as [|h hist]; [congruence|]. destruct hist' as [|h' hist']; [congruence|].
+      rewrite HL. remember (last (h :: hist) []) as lst.
+      destruct (T =? 0); [discriminate H|].
+      destruct ((b1 =? 0) || (b2 =? 0)); [discriminate H|].
+      destruct (negb (rows_of lst mod b1 =? 0) || negb (cols_of lst mod b2 =? 0)); [discriminate H|].
+      rewrite F'. reflexivity.
+  Qed.
+End BlockShape2D.
+
+(* the witness of the refutation of the split law for even T1 on the block engines *)
+Lemma block_split_even_refuted :
+  exists (b : nat) (hist : list (list Z)) (T1 T2 : nat) s1 out1 s2 out2 s3 out3,
+    Nat.even T1 = true /\ 1 <= T2 /\
+    (forall s blk t t', spec_brule BRev s blk t = spec_brule BRev s blk t') /\
+    evolve_block (spec_brule BRev) id_store b 0 hist T1 = Ok (s1, out1) /\
+    evolve_block (spec_brule BRev) id_store b s1 out1 T2 = Ok (s2, out2) /\
+    evolve_block (spec_brule BRev) id_store b 0 hist (T1 + T2 - 1) = Ok (s3, out3) /\
+    out2 <> out3.
+Proof.
+  exists 2, [[1; 2; 3; 4]%Z], 2, 2. do 6 eexists.
+  split; [reflexivity|]. split; [lia|]. split; [intros; reflexivity|].
+  split; [vm_compute; reflexivity|]. split; [vm_compute; reflexivity|]. split; [vm_compute; reflexivity|].
+  discriminate.
+Qed.
+
+(* ------------------------------------------------------------------ the callable-timesteps form also extends the history *)
+Lemma evolve_dynamic_extends : forall (X P C : Type) (dflt : C) (step : X -> C -> nat -> X * C)
+    (pred : P -> list C -> nat -> P * bool) fuel p0 x0 hist p x out plog,
+  hist <> [] ->
+  evolve_dynamic dflt step pred fuel p0 x0 hist = Some (p, x, out, plog) ->
+  exists rows, out = hist ++ rows /\ length rows = length plog - 1 /\ firstn (length hist) out = hist /\
+    (forall hist', hist' <> [] -> last hist' dflt = last hist dflt ->
+       evolve_dynamic dflt step pred fuel p0 x0 hist' = Some (p, x, hist' ++ rows, plog)).
+Proof.
+  intros X P C dflt step pred fuel p0 x0 hist p x out plog Hne H.
+  destruct (dynamic_complete _ _ _ _ _ _ _ _ _ _ _ _ _ _ H) as [k [ps [rows [Hk [Hit [H0 [Hyes [Hno [Ho Hp]]]]]]]]].
+  exists rows. rewrite (removelast_last_app _ dflt hist rows Hne) in Ho. subst out.
+  split; [reflexivity|]. split.
+  - rewrite Hp, map_length, seq_length, (iter_steps_length' _ _ _ _ _ _ _ _ _ Hit). lia.
+  - split; [rewrite firstn_app, firstn_all, Nat.sub_diag; cbn [firstn]; apply app_nil_r|].
+    intros hist' Hne' HL. rewrite <- HL in Hit, Hyes, Hno, Hp.
+    destruct (dynamic_spec _ _ _ dflt step pred k fuel p0 x0 hist' ps x rows p Hne' Hit H0 Hyes Hno Hk) as [D [A _]].
+    rewrite D, A, Hp. reflexivity.
+Qed.
